@@ -570,6 +570,49 @@ theorem history_destroys_what_it_creates {D : List Nat} {w : World} {ops : List 
     · have := hl.2 s (List.mem_append_left _ (List.mem_append_right _ h3))
       omega
 
+/-! ### the worlds of C01: no hypothesis on the outcome left
+
+For the worlds the driver reaches in the sense of C01 (`C01.ReachSD d`: debug or release mode, valid operations with the
+receiver listed first, normal returns and panics that leave no reservation pending) the hypothesis "the operation did not
+end in a marker" is a theorem (`C01.no_ub_reachable_both`), and the queue is empty between operations. -/
+
+theorem tw_init_release : TW { debug := false } where
+  ri := ⟨SlotMap.wf_empty, SlotMap.wf_empty, SlotMap.wf_empty, SlotMap.wf_empty, (fun _ h => nomatch h), (fun _ h => nomatch h)⟩
+  dropG := fun k info h => by cases h
+  dropT := fun k info h => by cases h
+  sends := fun hk h hh => by cases hh
+  listed := fun hk h hh => by cases hh
+  queue := fun q hq => nomatch hq
+
+/-- every world of C01 satisfies the ledger invariant and the registry invariant of conservation -/
+theorem reachSD_invariants {d : Bool} {w : World} (h : C01.ReachSD d w) : (∃ D, LedgerOK D w) ∧ TW w := by
+  induction h with
+  | init =>
+    refine ⟨⟨[], List.nodup_nil, (fun _ h => nomatch h)⟩, ?_⟩
+    cases d
+    · exact tw_init_release
+    · exact tw_init
+  | step op _ _ hok ih =>
+    obtain ⟨⟨D, hD⟩, tw⟩ := ih
+    exact ⟨⟨_, step_ledger hD (noMarker_of_stepOk hok)⟩,
+      (step_conserves tw (conserved_base [] _) (noMarker_of_stepOk hok)).1⟩
+  | panic op _ _ hp _ ih =>
+    obtain ⟨⟨D, hD⟩, tw⟩ := ih
+    exact ⟨⟨_, step_ledger hD (noMarker_of_stepPanic hp)⟩,
+      (step_conserves tw (conserved_base [] _) (noMarker_of_stepPanic hp)).1⟩
+
+/-- **C11 + C13 for every operation the driver can run, with no hypothesis on how it ends** (other than the model's fuel
+    marker): from a world of C01, a valid operation — whatever the registered handlers do, whether it returns or a handler
+    panics at any point of the propagation — leaves nothing queued, and its ledger holds exactly the event values it
+    created, each once -/
+theorem reachSD_op_destroys_what_it_creates {d : Bool} {w : World} {op : Op} (h : C01.ReachSD d w)
+    (hv : op.SValid) (hs : Small (step w op).1) (hf : NoFuel w op) :
+    (step w op).1.queue = [] ∧ (step w op).1.edrops.Nodup ∧
+    (∀ s, w.nextESerial ≤ s → s < (step w op).1.nextESerial → s ∈ (step w op).1.edrops) ∧
+    (∀ s ∈ (step w op).1.edrops, w.nextESerial ≤ s → s < (step w op).1.nextESerial) :=
+  op_destroys_what_it_creates (reachSD_invariants h).2
+    (C01.reachSD_inv h (small_of_step' w op hv.1 hs)).2.1.1 (reachSD_noMarker h hv hs) hf
+
 /-! ## (E) non-vacuity: a history with a `take`, a panic in the middle of a propagation, a dead target
 
 Closed histories, evaluated by the kernel (`decide +kernel`). -/
@@ -777,6 +820,8 @@ theorem demo_panicking_op :
 #print axioms op_destroys_what_it_creates
 #print axioms history_quiescent
 #print axioms history_destroys_what_it_creates
+#print axioms reachSD_invariants
+#print axioms reachSD_op_destroys_what_it_creates
 #print axioms demo_conserved
 #print axioms demo_panicking_op
 
